@@ -305,6 +305,18 @@ Proof.
   rewrite (gadget_alone evs a H Hg). reflexivity.
 Qed.
 
+(* why `running` must contain every task with a tomb irrespective of its status: if the pass only looked at a subset
+   `vis` of them (say, those in Doing/Undoing status, dropping a task aborted while its handler still executes), a
+   conflicting task would be started next to the invisible one *)
+Theorem status_filtered_running_refuted :
+  exists (tb : tombs) (vis : task -> bool) (cs : list cand),
+    excl (handlers tb) = true /\
+    excl (handlers (ensure_loop tb (List.filter vis (map fst tb)) cs)) = false.
+Proof.
+  exists [(mkT 1 (kd 0) (Some (sn 0)), false)], (fun _ => false), [CRun (mkT 2 (kd 0) (Some (sn 0)))].
+  split; vm_compute; reflexivity.
+Qed.
+
 (* ------------------------------------------------------------------------------------------ specification kinds *)
 
 Lemma beq_eq : forall a b, beq a b = true -> a = b.
